@@ -301,6 +301,14 @@ def merge(c, a, b):
         return b
     if a is b:
         return a
+    na, nb = type(a).__name__, type(b).__name__
+    if "GDict" in (na, nb) and (isinstance(a, dict) or isinstance(b, dict)):
+        from gsv import colsym
+        a = colsym.GDict(a) if isinstance(a, dict) else a
+        b = colsym.GDict(b) if isinstance(b, dict) else b
+    if "GList" in (na, nb) and (isinstance(a, list) or isinstance(b, list)):
+        from gsv import colsym
+        a, b = colsym._as_glist(a), colsym._as_glist(b)
     if hasattr(a, "_merge") and hasattr(b, "_merge"):
         return a._merge(c, b)
     if isinstance(a, dict) and isinstance(b, dict) and a.keys() == b.keys():
@@ -359,6 +367,7 @@ class Ctx:
         self.funcs = set()        # qualified names of functions executed from source
         self.assumptions = []     # stated bounds every query must assume (e.g. range(n): n <= limit)
         self.global_overrides = {}  # harness stubs for module globals (each is part of the claim)
+        self.key_domain = None      # finite domain of symbolic dictionary keys (stated bound of a harness)
         self.max_forks = 4000
 
     def err(self, cond, kind):
@@ -599,6 +608,11 @@ def cast_up_bool(v):
 def compare(op, a, b):
     if isinstance(a, Choice) or isinstance(b, Choice):
         return map_choice(lambda x, y: compare(op, x, y), a, b)
+    if isinstance(op, (ast.In, ast.NotIn)) and type(b).__name__ == "GDict":
+        r = b.contains(a)
+        if isinstance(op, ast.In):
+            return r
+        return (not r) if isinstance(r, bool) else Sym(z3.Not(r.t), bool)
     if isinstance(op, (ast.In, ast.NotIn)) and hasattr(a, "_symarray"):
         # numpy: `arr in [..]` -> ambiguous truth value; `arr in {..}` -> unhashable: both raise
         CTX.err(True, "ValueError/TypeError(array in container)")
@@ -979,7 +993,11 @@ class Frame:
             idx = self.ev(target.slice, env)
             if is_sym(base):
                 raise Unsupported("store into symbolic scalar")
-            if is_sym(idx) and not hasattr(base, "_symarray"):
+            if is_sym(idx) and type(base) is dict and isinstance(target.value, ast.Name):
+                from gsv import colsym
+                base = colsym.GDict(base)
+                env[target.value.id] = base
+            elif is_sym(idx) and not hasattr(base, "_symarray"):
                 raise Unsupported("symbolic store index into concrete container")
             base[idx] = v
         elif isinstance(target, ast.Attribute):
@@ -1056,6 +1074,33 @@ class Frame:
                 return g1 if k == 0 else g2
             env.update(merged)
             return zor(g1, g2)
+        if isinstance(st, ast.For) and type(self.ev(st.iter, env)).__name__ == "GList":
+            gl = self.ev(st.iter, env)
+            for ge, v in list(gl.entries):
+                if ge is False:
+                    continue
+                before = copy_env(env)
+                self.assign(st.target, v, env)
+                self.loops.append({"cont": [], "brk": []})
+                try:
+                    g_end = self.block(st.body, env, zand(g, ge))
+                finally:
+                    frame = self.loops.pop()
+                if frame["brk"]:
+                    raise Unsupported("break inside a loop over a guarded list")
+                g_in = self._join(env, g_end, frame["cont"])
+                # paths on which the entry is absent keep the environment from before the iteration
+                if g_in is False:
+                    env.clear()
+                    env.update(before)
+                elif ge is not True:
+                    for k in set(env) | set(before):
+                        if k in env and k in before:
+                            if env[k] is not before[k]:
+                                env[k] = merge(zbool(ge), env[k], before[k])
+                        elif k in before:
+                            env[k] = before[k]
+            return g
         if isinstance(st, ast.For):
             it = self.ev(st.iter, env)
             it = self.iterate(it)
@@ -1360,6 +1405,11 @@ class Frame:
                 self.comp(gens, i + 1, en, emit, g)
 
     def call(self, e, env):
+        if (isinstance(e.func, ast.Attribute) and e.func.attr == "append" and isinstance(e.func.value, ast.Subscript)):
+            base = self.ev(e.func.value.value, env)
+            if type(base).__name__ == "GDict":
+                ref = base.ref(self.ev(e.func.value.slice, env))
+                return ref.append(*[self.ev(a, env) for a in e.args])
         f = self.ev(e.func, env)
         args = []
         for a in e.args:
